@@ -402,6 +402,11 @@ func (fv *FuncVC) resolveSourceName(env *SpecEnv, name string) (Val, bool) {
 	if a, ok := fv.aliases[name]; ok {
 		name = a
 	}
+	if fr == nil {
+		// a clause evaluated at a call site has no frame of the callee: source-level names (local(x), loop variables) mean
+		// nothing there - such clauses belong in `checks`, which callers do not import
+		engineErr("source-level name %q used in a clause that is evaluated outside the function's body (use `checks` for clauses over locals)", name)
+	}
 	// inside old(..) a variable captured by reference denotes the content of its cell in the old state
 	if env.inOld && fr != nil {
 		for _, f := range fr.fn.FreeVars {
